@@ -12,7 +12,7 @@ for part in /tmp/regress/part.*; do
     wt=/tmp/regress/wt.$(basename $part)
     git -C /repo worktree add -q --detach $wt HEAD
     for s in $(cat $part); do
-      prop=$(echo $s | sed -E 's/^r[0-9]+-//' | cut -c1-3)
+      prop=$(echo $s | sed -E 's/^(r[0-9]+|own)-//' | cut -c1-3)
       git -C $wt checkout -q -- . ; git -C $wt clean -fdq
       git -C $wt apply /verif/seeded/$s/patch.diff 2>/dev/null || { echo "$s APPLY-FAIL"; continue; }
       o=/tmp/regress/out.$s; mkdir -p $o
